@@ -415,6 +415,139 @@ fn harden(rng: &mut Rng, thorough: bool, emit: &mut dyn FnMut(String)) {
         emit_all(emit, &ys, n);
     }
     edge_of_range(rng, thorough, emit);
+    ordered(rng, thorough, emit);
+}
+
+/// ORDER / MONOTONICITY OF THE DATA (fifth seeded round): samples that are SORTED in some sense - strictly decreasing
+/// magnitude (positive, negative "in rising order", mixed signs), strictly increasing, sorted with one adjacent swap or
+/// one tie, ranked integers n..1 and 1..n, decaying / growing geometric signals, sorted by signed value (V-shaped
+/// magnitudes), a permutation of a sorted sample, asymmetric data whose sum is exactly zero - at every length 2..=40,
+/// 63..=66, 127..=130 and 200, for the mean, both deviations, the geometric mean (of the magnitudes), an exact
+/// translation and an exact scaling.  Judged by the exact-rational defining formulas of the plug-in.
+fn ordered(rng: &mut Rng, thorough: bool, emit: &mut dyn FnMut(String)) {
+    let reps = if thorough { 6 } else { 1 };
+    let lengths: Vec<usize> = (2..=40usize).chain(63..=66).chain(127..=130).chain([200]).collect();
+    let mut k = 0usize;
+    for _ in 0..reps {
+        for &n in &lengths {
+            for pattern in 0..16usize {
+                k += 1;
+                // distinct magnitudes, sorted decreasingly
+                let mut mags: Vec<f64> = match k % 4 {
+                    0 => (0..n).map(|_| rng.uniform(1e-3, 1e6)).collect(),
+                    1 => {
+                        // distinct integers
+                        let mut x = 0i64;
+                        (0..n).map(|_| { x += rng.range(1, 9); x as f64 }).collect()
+                    }
+                    2 => (0..n).map(|_| 10f64.powf(rng.uniform(-6.0, 6.0)).min(1e6)).collect(),
+                    _ => {
+                        // distinct dyadics
+                        let mut x = 0i64;
+                        (0..n).map(|_| { x += rng.range(1, 64); x as f64 / 16.0 }).collect()
+                    }
+                };
+                mags.sort_by(|a, b| b.partial_cmp(a).unwrap());
+                mags.dedup();
+                while mags.len() < n {
+                    let last = *mags.last().unwrap();
+                    mags.push(last / 2.0);
+                }
+                let xs: Vec<f64> = match pattern {
+                    // strictly decreasing magnitude: positive, negative (rising values), random signs, alternating signs
+                    0 => mags.clone(),
+                    1 => mags.iter().map(|m| -m).collect(),
+                    2 => mags.iter().map(|m| if rng.chance(1, 2) { -m } else { *m }).collect(),
+                    3 => mags.iter().enumerate().map(|(i, m)| if i % 2 == 0 { *m } else { -m }).collect(),
+                    // strictly increasing magnitude: positive, negative (falling values)
+                    4 => mags.iter().rev().cloned().collect(),
+                    5 => mags.iter().rev().map(|m| -m).collect(),
+                    // sorted by signed value, ascending / descending (V-shaped magnitudes)
+                    6 | 7 => {
+                        let mut v: Vec<f64> = mags.iter().map(|m| if rng.chance(1, 2) { -m } else { *m }).collect();
+                        v.sort_by(|a, b| a.partial_cmp(b).unwrap());
+                        if pattern == 7 {
+                            v.reverse();
+                        }
+                        v
+                    }
+                    // decreasing with one adjacent swap / one tie / one swap of two distant places
+                    8 => {
+                        let mut v = mags.clone();
+                        let i = rng.below(n as u64 - 1) as usize;
+                        v.swap(i, i + 1);
+                        v
+                    }
+                    9 => {
+                        let mut v = mags.clone();
+                        let i = rng.below(n as u64 - 1) as usize;
+                        v[i + 1] = v[i];
+                        v
+                    }
+                    10 => {
+                        let mut v: Vec<f64> = mags.iter().map(|m| -m).collect();
+                        let i = rng.below(n as u64) as usize;
+                        let j = rng.below(n as u64) as usize;
+                        v.swap(i, j);
+                        v
+                    }
+                    // ranked integers n..1, 1..n
+                    11 => (0..n).map(|i| (n - i) as f64).collect(),
+                    12 => (0..n).map(|i| (i + 1) as f64 * if k % 2 == 0 { 1.0 } else { -1.0 }).collect(),
+                    // a decaying / growing geometric signal a r^i (ratio 0.8, 0.5, 0.9, 0.99)
+                    13 => {
+                        let r = *rng.pick(&[0.8, 0.5, 0.9, 0.99, 0.75]);
+                        let a = *rng.pick(&[1000.0, 1.0, 1e6, -1000.0, 12.5]);
+                        let mut v: Vec<f64> = (0..n).map(|i| a * f64::powi(r, i as i32)).collect();
+                        if k % 3 == 0 {
+                            v.reverse();
+                        }
+                        v
+                    }
+                    // strictly decreasing magnitudes whose sum is exactly zero: the first value balances the rest
+                    // (integers / dyadics), the rest in decreasing order
+                    14 => {
+                        let mut x = 0i64;
+                        let mut tail: Vec<f64> = (1..n).map(|_| { x += rng.range(1, 9); x as f64 / 4.0 }).collect();
+                        tail.reverse();
+                        let total: f64 = tail.iter().sum();
+                        let mut v = vec![-total];
+                        v.extend(tail);
+                        v
+                    }
+                    // a random permutation of the sorted sample
+                    _ => {
+                        let mut v = mags.clone();
+                        for i in (1..n).rev() {
+                            let j = rng.below(i as u64 + 1) as usize;
+                            v.swap(i, j);
+                        }
+                        v
+                    }
+                };
+                emit(format!("mean {}", req_vec_f(&xs)));
+                emit(format!("std {} {}", if k % 2 == 0 { "p" } else { "s" }, req_vec_f(&xs)));
+                match k % 3 {
+                    0 => emit(format!("samplepop {}", req_vec_f(&xs))),
+                    1 => {
+                        // an exact translation (integer / dyadic data) or any translation
+                        let c = if k % 2 == 0 { rng.range(-1000, 1000) as f64 } else { rng.dyadic(1 << 19, 8) };
+                        emit(format!("translate {} {} {}", if k % 2 == 0 { "s" } else { "p" }, rbits(c), req_vec_f(&xs)));
+                    }
+                    _ => {
+                        let c = 2f64.powi(rng.range(-8, 8) as i32) * if rng.chance(1, 2) { -1.0 } else { 1.0 };
+                        let ss: Vec<f64> = xs.iter().map(|x| x / 256.0).collect();
+                        emit(format!("scale {} {} {}", if k % 2 == 0 { "s" } else { "p" }, rbits(c), req_vec_f(&ss)));
+                    }
+                }
+                // the geometric mean of the magnitudes (positive data) in the same order
+                let ps: Vec<f64> = xs.iter().map(|x| x.abs()).collect();
+                if ps.iter().all(|x| *x > 0.0) {
+                    emit(format!("geom {}", req_vec_f(&ps)));
+                }
+            }
+        }
+    }
 }
 
 /// `steps` units in the last place above the positive number `x` (crossing binade boundaries and the
